@@ -69,7 +69,10 @@ def _():
 
 @witness("C18", "vtt-stray-end-tag")
 def _():
-    return _run("vtt", VTT + b"a</b>c\n", 0, "TypeError|AttributeError", "_TextCueParser")
+    # fixed by lab commit 654d3f5 (an end tag closes only the innermost open tag of that name; </ruby> also closes an open <rt>)
+    return (_clean("vtt", VTT + b"a</b>c\n") or _clean("vtt", VTT + b"</b></i></b>c<i>d</b>e</i></i>f\n")
+            or _clean("vtt", VTT + b"<ruby>a<rt>b</ruby>c<ruby>d<rt>e</rt></ruby></ruby>f\n")
+            or _clean("vtt", VTT + b"<ruby>a<rt><b><rt>x</rt></b></rt></ruby></rt>z\n"))
 
 @witness("C18", "vtt-ruby-structure")
 def _():
@@ -78,7 +81,9 @@ def _():
 
 @witness("C18", "vtt-percentage-overflow")
 def _():
-    return _run("vtt", b"WEBVTT\n\n00:01.000 --> 00:02.000 size:" + b"9" * 400 + b"%\nx\n", 0, "OverflowError", "parse_vtt_pct")
+    # fixed by lab commit cb365b8 (a number that reads as float infinity is out of range)
+    return (_clean("vtt", b"WEBVTT\n\n00:01.000 --> 00:02.000 size:" + b"9" * 400 + b"%\nx\n")
+            or _clean("vtt", b"WEBVTT\n\n00:01.000 --> 00:02.000 line:" + b"9" * 400 + b".5%,start position:" + b"1" * 500 + b"%,center\nx\n"))
 
 @witness("C18", "srt-stray-end-tag")
 def _():
@@ -87,7 +92,8 @@ def _():
 
 @witness("C18", "srt-font-color-without-value")
 def _():
-    return _run("srt", SRT + b"<font color>x</font>\n", 0, "TypeError", "parse_color")
+    # fixed by lab commit 02aa1c0 (a color attribute without a value is ignored)
+    return _clean("srt", SRT + b"<font color>x</font>\n") or _clean("srt", SRT + b"<font color color=\"red\" color>x</font>\n")
 
 @witness("C18", "srt-markup-declaration")
 def _():
@@ -112,7 +118,9 @@ def _():
 
 @witness("C18", "imsc-content-inside-set")
 def _():
-    return _run("imsc", TT % (b"", b"<body><set><p>one</p></set></body>"), 0, "TypeError", "set_space")
+    # fixed by lab commit ff2ba55 (children of <set> are not read)
+    return (_clean("imsc", TT % (b"", b"<body><set><p>one</p></set></body>"))
+            or _clean("imsc", TT % (b"", b'<body><div><p><set tts:color="red"><span>x</span><metadata/></set>a<br><set tts:color="red"><br/></set></br></p></div></body>')))
 
 @witness("C18", "imsc-zero-rate")
 def _():
@@ -124,7 +132,11 @@ def _():
 
 @witness("C18", "isd-style-on-br")
 def _():
-    return _run("imsc", TT % (b"", b'<body><div><p>a<br tts:lineHeight="100%"/>b</p></div></body>'), 0, "ValueError", "_compute_length")
+    # fixed by lab commit 1896172 (no style applies to br: none is computed)
+    for a in (b'tts:lineHeight="100%"', b'tts:lineHeight="2em"', b'tts:textOutline="red 10%"', b'tts:padding="1%"', b'tts:position="center"',
+              b'tts:rubyReserve="both"', b'tts:display="none"', b'tts:fontSize="2em" tts:extent="10% 10%" tts:origin="1em 1c" tts:textShadow="1em 1em"'):
+        bad = _clean("imsc", TT % (b"", b"<body><div><p>a<br %s/>b<br><set %s/></br></p></div></body>" % (a, a)))
+        if bad: return bad
 
 @witness("C18", "stl-bad-tcp")
 def _():
@@ -143,7 +155,9 @@ def _():
 
 @witness("C18", "stl-zero-row-count")
 def _():
-    return _run("stl", _stl(dict(MNR=b"00"), [(0, 5)]), 2, "ZeroDivisionError", "process_tti_block")
+    # fixed by lab commit 7e042d3 (a row count below 1 is logged and the default used)
+    return (_clean("stl", _stl(dict(MNR=b"00"), [(0, 5)]), 2) or _clean("stl", _stl(dict(MNR=b"-1"), [(0, 5)]), 2)
+            or _clean("stl", _stl(dict(MNR=b" 0"), [(0, 5), (2, 6)]), 3))
 
 @witness("C18", "stl-zero-block-count")
 def _():
@@ -158,12 +172,15 @@ def _():
 
 @witness("C18", "scc-no-caption-to-process")
 def _():
-    return (_run("scc", b"Scenarist_SCC V1.0\n\n00:00:00:00\t942f\n\n00:00:02:00\t94a7 94ad 13b5\n", 0, "AttributeError", r"SccContext\.backspace")
-            or _run("scc", b"Scenarist_SCC V1.0\n\n00:00:00:00\t9429 97a2\n", 0, "AttributeError", "SccContext"))
+    # fixed by lab commit 112cd61 (a backspace, extended character or tab offset with no caption to process is ignored)
+    return (_clean("scc", b"Scenarist_SCC V1.0\n\n00:00:00:00\t942f\n\n00:00:02:00\t94a7 94ad 13b5\n")
+            or _clean("scc", b"Scenarist_SCC V1.0\n\n00:00:00:00\t9429 97a2\n") or _clean("scc", b"Scenarist_SCC V1.0\n\n00:00:00:00\t94a1 97a1 97a2 97a3 13b5\n")
+            or _clean("scc", b"Scenarist_SCC V1.0\n\n00:00:00:00\t9429 94a1\n"))
 
 @witness("C18", "negative-begin-unwritable")
 def _():
-    return _run("scc", b"01:27:58:02\t9429 20f4\n01:27:58:02\t942f 6b20 942f\n", 0, "ValueError", r"ClockTime\.from_seconds")
+    # fixed by lab commit 35fc780 (paint-on text painted before its paragraph begins is shown from the beginning of the paragraph)
+    return _clean("scc", b"01:27:58:02\t9429 20f4\n01:27:58:02\t942f 6b20 942f\n")
 
 @witness("C18", "cue-shorter-than-a-millisecond")
 def _():
